@@ -364,6 +364,25 @@ def run(facts, res):
                     tt.callee is not None and tt.callee.name == R.name("raw_write") for c_ in s.closures for _, tt in c_.calls()):
                 recv = arg_term(m, s.term, 0, 30)
                 names = {callee_name(x) for x in walk(recv, False) if x[0] == "call"}
+                if "filter" in names and not (names & (SEL | {"filter_map"})):
+                    # `.filter(|item| !is_block_or_pack(item) && !ours.contains(item)).for_each(copy)`: a filter that states only the
+                    # accepted copy guards is the loop's `if`
+                    from ..conds import closure_result_lits, unaccepted
+                    from ..common import iter_chain
+                    okf = True
+                    for x in iter_chain(recv):
+                        if callee_name(x) == "filter" and len(x[2]) >= 2:
+                            c_ = x[2][1]
+                            hops = 0
+                            while hops < 20 and c_[0] in ("ref", "deref", "cast", "var"):
+                                hops += 1
+                                c_ = c_[3] if c_[0] == "var" else c_[1]
+                            fcb = facts.body(c_[1]) if c_[0] == "closure" else None
+                            tl = closure_result_lits(fcb, facts, True) if fcb is not None else []
+                            if not tl or unaccepted(tl, _copy_guard_ok):
+                                okf = False
+                    if okf:
+                        names = names - {"filter"}
                 if names & (SEL | {"filter", "filter_map"}):
                     res.violation("L5", "meld|source-not-whole:%s" % ",".join(sorted(names & (SEL | {"filter", "filter_map"}))),
                                   "a meld copy loop iterates a selected part of the peer's items (%s)" % sorted(names & (SEL | {"filter", "filter_map"})), s.loc())
